@@ -52,6 +52,7 @@ _SAFE_BUILTINS = {
     "frozenset": frozenset,
     "dict": dict,
     "round": round,
+    "print": lambda *a, **k: None,
     "abs": abs,
     "bin": bin,
     "iter": iter,
@@ -151,7 +152,10 @@ class MiniEval:
             raise ModelRaise("IndexError", str(e))
         except (ValueError, ZeroDivisionError, StopIteration) as e:
             raise ModelRaise(type(e).__name__, str(e))
-        except (TypeError, AttributeError) as e:
+        except TypeError as e:
+            # e.g. "_".join([Tree(...)]) - a genuine TypeError of the evaluated code
+            raise ModelRaise("TypeError", f"{norm(n)[:60]}: {e}")
+        except AttributeError as e:
             raise Unsupported(f"call {norm(n)} failed in the model: {e}")
 
     def ev_Subscript(self, n):
